@@ -1,6 +1,7 @@
 import HdVerif.Model.FrameAccess
 import HdVerif.Generated.T1c
 import HdVerif.Generated.T11f
+import HdVerif.Generated.T11g
 /-! C05: the OTHER ways of fetching stored frames, and histories on one object.
 
 `Model/FrameAccess.lean` composes `get_stored_frame` / `get_stored_frames`.  Stored frames are also read by the frame
@@ -259,5 +260,60 @@ def readerAccepts (k : FpKind) : Bool := k.isInstanceAny readerFileObjectTypes |
 
 /-- `imread(fp, lazy_frame_retrieval=True)` gets as far as a reader -/
 def lazyOpens (k : FpKind) : Bool := readerAccepts (lazyHandedToReader k)
+
+/-! ### the file behind a lazily read image: opened and closed around every call
+
+`ImageFileReader.__enter__` / `__exit__` (regenerated, T11g) count how deep `with reader:` blocks are nested; a reader that
+was given a PATH opens the file on the outermost enter and closes it on the outermost exit (`should_close`), a reader that
+was given an open file object never closes it.  A read needs the file open. -/
+
+structure RState where
+  depth : Int
+  isOpen : Bool
+  deriving DecidableEq, Repr
+
+inductive ROp | enter | exit | read
+  deriving DecidableEq, Repr
+
+/-- one step; a read reports whether the file was open -/
+def rstep (shouldClose : Bool) (s : RState) : ROp → RState × List Bool
+  | .enter => match readerEnter s.depth s.isOpen with
+    | .ok (d, o) => (⟨d, o⟩, [])
+    | .error _ => (s, [])
+  | .exit => match readerExit s.depth s.isOpen shouldClose with
+    | .ok (d, o) => (⟨d, o⟩, [])
+    | .error _ => (s, [])
+  | .read => (s, [s.isOpen])
+
+def rrun (shouldClose : Bool) : RState → List ROp → RState × List Bool
+  | s, [] => (s, [])
+  | s, op :: ops =>
+    let r := rstep shouldClose s op
+    let rest := rrun shouldClose r.1 ops
+    (rest.1, r.2 ++ rest.2)
+
+/-- what the methods of a lazily read image do with the reader: `get_raw_frame` (behind `get_stored_frame` / `get_frame`) wraps
+    ONE read in `with reader:`; the batch methods (`get_stored_frames`, `get_frames`, `_get_pixels_by_frame`) wrap their loop in
+    `with reader:` and read `k` frames inside, through `get_raw_frame` (nested `with`) or from the reader directly -/
+inductive LazyCall
+  | single
+  | batch (k : Nat) (viaRawFrame : Bool)
+  deriving Repr
+
+def singleOps : List ROp := [.enter, .read, .exit]
+
+def LazyCall.ops : LazyCall → List ROp
+  | .single => singleOps
+  | .batch k via => .enter :: (List.replicate k (if via then singleOps else [.read])).flatten ++ [.exit]
+
+def LazyCall.reads : LazyCall → Nat
+  | .single => 1
+  | .batch k _ => k
+
+/-- the reader between two calls: nothing entered; the file closed iff the reader owns it -/
+def restState (shouldClose : Bool) : RState := ⟨0, !shouldClose⟩
+
+def runCalls (shouldClose : Bool) (calls : List LazyCall) : RState × List Bool :=
+  rrun shouldClose (restState shouldClose) (calls.map LazyCall.ops).flatten
 
 end HdVerif.FramePaths
